@@ -409,12 +409,13 @@ class AsyncRun:
     def route_of(self, call):
         """C10 on the ledger (direct connections): the request went to a stream established to
         exactly its origin's host and port, TLS-wrapped iff the scheme is secure."""
-        if self.pool_kwargs.get("proxy") is not None:
-            return "ok"
         try:
             o = httpcore.URL(call.url).origin
         except Exception:
             return "ok"
+        proxy = self.pool_kwargs.get("proxy")
+        if proxy is not None:
+            return self._route_via_proxy(call, o, proxy)
         sids = self.streams_with_token(call.tok)
         if not sids:
             return "ok"
@@ -426,6 +427,40 @@ class AsyncRun:
                 return f"wrong-endpoint:{rec.host}:{rec.port}"
             if bool(rec.tls) != (o.scheme in (b"https", b"wss")):
                 return "wrong-tls"
+            for lay in rec.tls:
+                if lay.get("sni") != o.host.decode() and "sni_hostname" not in (call.extensions or {}):
+                    return f"wrong-sni:{lay.get('sni')}"
+                want = ["http/1.1", "h2"] if self.pool_kwargs.get("http2") else ["http/1.1"]
+                if list(lay.get("alpn") or []) != want:
+                    return "wrong-alpn:" + ",".join(lay.get("alpn") or [])
+        return "ok"
+
+    def _route_via_proxy(self, call, o, proxy):
+        """C10 through a proxy: the stream goes to the proxy's endpoint; each TLS layer names the
+        host it secures and offers h2 only where HTTP/2 may be spoken (never on the hop to an
+        HTTP(S) proxy)."""
+        pu = proxy.url
+        secure = o.scheme in (b"https", b"wss")
+        h2 = bool(self.pool_kwargs.get("http2"))
+        for sid in self.streams_with_token(call.tok):
+            rec = self.net.streams[sid]
+            if rec.kind != "tcp":
+                continue
+            if rec.host != pu.host.decode() or rec.port != pu.port:
+                return f"wrong-endpoint:{rec.host}:{rec.port}"
+            layers = list(rec.tls)
+            expect = []
+            if pu.scheme == b"https":
+                expect.append((pu.host.decode(), ["http/1.1"]))
+            if secure:
+                expect.append((o.host.decode(), ["http/1.1", "h2"] if h2 else ["http/1.1"]))
+            if len(layers) != len(expect):
+                return "wrong-tls"
+            for lay, (sni, alpn) in zip(layers, expect):
+                if lay.get("sni") != sni:
+                    return f"wrong-sni:{lay.get('sni')}"
+                if list(lay.get("alpn") or []) != alpn:
+                    return "wrong-alpn:" + ",".join(lay.get("alpn") or [])
         return "ok"
 
     def idle_streams(self):
